@@ -4,6 +4,7 @@ import SamplyModel.Lemmas.ProfileDecode
 import SamplyModel.Lemmas.ProfileFrameDesc
 import SamplyModel.Lemmas.ProfileNsym
 import SamplyModel.Lemmas.ProfileAddrFrame
+import SamplyModel.Lemmas.ProfileSymFrame
 /-!
 # C03 — every serialized profile is internally consistent (no dangling index)
 
@@ -381,6 +382,38 @@ theorem C03_canonical_address_frame (pre post : List Op) (t : Nat) (a : AddrSpec
   obtain ⟨st, hst, htid, hdec⟩ := C03_frame_decode _ h s hs t th' ht'
   exact ⟨d, hd, th', st, ht', hst, htid, by rw [hdec i k hk', hd']⟩
 
+/-- **Canonical interning of symbolicated address frames.** If
+`handle_for_frame_with_address_and_symbol(thread, address, FrameSymbolInfo, inline depth, subcategory, flags)`
+returned the frame handle `(t, i)` at some point of an accepted history, then in the profile serialized at the
+end of the history row `i` of that thread's frame table decodes to a description satisfying the caller-side
+specification `P.SymFrameSpec`, evaluated in the state before the call: category / subcategory names, the file
+string, line, column, flags; for an unmapped address the given name (or the hex string), no library / address /
+native symbol, inline depth 0; for an address inside a library the library's identity, the relative address,
+the description of the native symbol *the passed handle denotes*, the inline depth, and the given name or the
+native symbol's name. -/
+theorem C03_canonical_symbol_frame (pre post : List Op) (t : Nat) (a : AddrSpec) (name : Option Nat) (nsym : TH)
+    (file line col : Option Nat) (depth : Nat) (sc : SubSpec) (flags i : Nat)
+    (h : Accepted (pre ++ .frameSym t a name nsym file line col depth sc flags :: post) = true)
+    (hout : (step (run pre) (.frameSym t a name nsym file line col depth sc flags)).2 = .h [t, i])
+    (s : SerProfile)
+    (hs : serialize (run (pre ++ .frameSym t a name nsym file line col depth sc flags :: post)) = some s) :
+    ∃ d, (run pre).SymFrameSpec t a name nsym file line col depth sc flags d ∧
+      ∃ th st, (run (pre ++ .frameSym t a name nsym file line col depth sc flags :: post)).threads[t]? = some th ∧
+        st ∈ s.threads ∧ st.tid = idString th.tid ∧ decodeFrame s st i = some d := by
+  obtain ⟨hpre, hv⟩ := C03_accepted_split pre _ post h
+  obtain ⟨d, th2, k, hd, ht2, hk2, hdesc⟩ :=
+    sym_step (run pre) (Inv.run pre hpre) (SDecAll.run pre hpre) t a name nsym file line col depth sc flags hv i hout
+  have hrun : run (pre ++ [.frameSym t a name nsym file line col depth sc flags]) =
+      (step (run pre) (.frameSym t a name nsym file line col depth sc flags)).1 := by
+    simp [run, List.foldl_append]
+  have hall : pre ++ .frameSym t a name nsym file line col depth sc flags :: post =
+      (pre ++ [.frameSym t a name nsym file line col depth sc flags]) ++ post := by simp
+  rw [hall] at h hs ⊢
+  rw [← hrun] at ht2 hdesc
+  obtain ⟨th', ht', hk', hd'⟩ := C03_frame_desc_stable _ post h t i th2 k d ht2 hk2 hdesc
+  obtain ⟨st, hst, htid, hdec⟩ := C03_frame_decode _ h s hs t th' ht'
+  exact ⟨d, hd, th', st, ht', hst, htid, by rw [hdec i k hk', hd']⟩
+
 /-- **Frame handles are stable.** The frame key behind a valid frame handle is the same at the end of any
 continuation of the history. -/
 theorem C03_frame_key_stable (pre post : List Op) (f : TH) (hv : (run pre).frameOk f = true) :
@@ -436,6 +469,14 @@ example : ∃ s, serialize (run C03_example) = some s ∧ identOk (run C03_examp
 set_option maxRecDepth 8192 in
 example : (run C03_example).threads.map (fun t => (t.process, t.isMain)) = [(0, true), (0, false), (1, true)] ∧
     (run C03_example).counters.map (·.process) = [1] ∧ (run C03_example).visible = [2] := by decide
+-- the hypotheses of the decoding theorems are met by the example's frame / native-symbol calls
+set_option maxRecDepth 8192 in
+example : (step (run (C03_example.take 14)) (.frameLabel 0 0 none .other 0)).2 = .h [0, 0] ∧
+    (step (run (C03_example.take 15)) (.frameLabel 0 1 (some (some 0, some 3, none)) (.sub 1 1) 1)).2 = .h [0, 1] ∧
+    (step (run (C03_example.take 16)) (.frameAddr 0 (.abs .ip 20) (.catVal "JS" 8) 0)).2 = .h [0, 2] ∧
+    (step (run (C03_example.take 18)) (.nativeSymbol 0 0 ⟨32, none, "x"⟩)).2 = .h [0, 1] ∧
+    (step (run (C03_example.take 19)) (.frameSym 0 (.rel .ip 0 33) none (0, 1) none none none 2 (.cat 1) 0)).2 = .h [0, 3] := by
+  decide
 -- the call with a frame of another thread is rejected
 set_option maxRecDepth 8192 in
 example : (step (run (C03_example.take 23)) (.stack 1 (0, 0) none)).2 = .rejected := by decide
